@@ -487,6 +487,12 @@ pub fn parse_date_yymmdd(input: &str) -> Result<NaiveDate, ParseError> {
             ),
         });
     }
+    // u32::from_str accepts a leading '+', so "+1+1+1" would otherwise read as 2001-01-01
+    if !input.bytes().all(|b| b.is_ascii_digit()) {
+        return Err(ParseError::InvalidFormat {
+            message: format!("Date must consist of 6 digits (YYMMDD), found '{}'", input),
+        });
+    }
 
     let year = input[0..2]
         .parse::<u32>()
